@@ -213,6 +213,47 @@ theorem current_code_total (numThreads : Nat) (mode : Mode) (forces : List (Forc
   have hrf := current_code_raceFree numThreads mode forces shared0 sched
   exact ⟨hrf, by rw [total_order_independent _ hn shared0 sched hrf hc, totalOf_eq_serial]⟩
 
+/-! ### subsystem level: enabled mask and task class -/
+
+theorem filter_parallel_enabled_nil (all : List (MForce M)) (h : subsystemHasParallel all = false) :
+    (enabledElts all).filter (fun f => f.parallel) = [] := by
+  rw [List.filter_eq_nil_iff]
+  intro f hf
+  simp only [enabledElts, List.mem_map, List.mem_filter] at hf
+  obtain ⟨m, ⟨hm, _⟩, rfl⟩ := hf
+  simp only [subsystemHasParallel, List.any_eq_false] at h
+  simpa using h m hm
+
+/-- because the task class is chosen from ALL forces of the subsystem, the task in use never ignores an enabled
+parallel force: the subsystem-level configuration is the plain current-code configuration of the enabled forces -/
+theorem configSubsystem_eq (numThreads : Nat) (mode : Mode) (all : List (MForce M)) :
+    configSubsystem numThreads mode all =
+      configCurrent (effectiveThreads numThreads (subsystemHasParallel all)) mode (enabledElts all) := by
+  simp only [configSubsystem, configV, taskDirectV, Bool.false_eq_true, if_false]
+  congr 1
+  funext w
+  apply List.flatMap_congr
+  intro k _
+  unfold taskLocalC
+  by_cases hk : k = 0
+  · subst hk; simp
+  · simp only [hk, if_false]
+    cases hp : subsystemHasParallel all
+    · simp only [Bool.false_eq_true, if_false]
+      simp [taskLocalV, hk, filter_parallel_enabled_nil all hp]
+    · simp
+
+/-- **total = Σ over the currently ENABLED forces, for every schedule**: whatever forces exist in the subsystem,
+whichever are disabled by default or switched on/off in the State (any enabled mask), every thread count and mode:
+every interleaving is race free and every complete one leaves the serial sum of the enabled, evaluated forces. -/
+theorem subsystem_total_enabled (numThreads : Nat) (mode : Mode) (all : List (MForce M)) (shared0 : M) (sched : List Nat)
+    (hc : Complete (configSubsystem numThreads mode all) (run (configSubsystem numThreads mode all) (init shared0) sched)) :
+    RaceFree (configSubsystem numThreads mode all) shared0 sched ∧
+    (run (configSubsystem numThreads mode all) (init shared0) sched).shared =
+      shared0 + serialSum mode (enabledElts all) := by
+  rw [configSubsystem_eq] at hc ⊢
+  exact current_code_total _ mode (enabledElts all) shared0 sched hc
+
 /-! ### the concrete lost update (finding F7 in miniature, HISTORICAL: the code before commit 199e8a3a) -/
 
 /-- one non-parallel velocity-dependent force adding 1, one parallel force adding 1000, one position-only
@@ -250,5 +291,13 @@ example :
     Complete f7Config (run f7Config (init 0) (sequentialSchedule f7Config)) ∧
     (run f7Config (init 0) (sequentialSchedule f7Config)).shared = 1001 := by
   decide
+
+/-- why the task class must be chosen from ALL forces: if a subsystem whose only parallel force was disabled at
+topology time is given the non-parallel task (`taskLocalC false`) and that force is enabled later, its task index 1
+is ignored and its 1000 is missing from the total (the mutation class the enable/disable histories of the harness
+are aimed at). -/
+example :
+    sumList ((List.range 2).flatMap (taskLocalC false .all f7Forces)) = 6 ∧
+    sumList ((List.range 2).flatMap (taskLocalC true .all f7Forces)) = 1006 := by decide
 
 end C17
